@@ -8,7 +8,7 @@
 //! KQL query then projects all propositions of the batch (the subjects of a
 //! batch share a display name; names are not identity in KIP).
 
-use crate::case::{Case, Event, Spec, GRID, N_ACTORS, N_EVIDENCE};
+use crate::case::{Case, Event, GRID, N_ACTORS, N_EVIDENCE, Spec};
 use crate::model::Policy;
 use anda_cognitive_nexus::{
     CognitiveNexus,
@@ -97,7 +97,8 @@ impl World {
                 .await
                 .unwrap_or_else(|e| machinery(&format!("CognitiveNexus::connect: {e:?}")));
             for source in [anda_cognitive_nexus::profiles::COGNITIVE_MEMORY, PACKAGE] {
-                let package = SchemaPackage::parse(source).unwrap_or_else(|e| machinery(&format!("package: {e:?}")));
+                let package = SchemaPackage::parse(source)
+                    .unwrap_or_else(|e| machinery(&format!("package: {e:?}")));
                 nexus
                     .install_package(&package, "verif")
                     .await
@@ -127,10 +128,14 @@ impl World {
             };
             let mut cmd = String::from("MUTATE {\n");
             for i in 0..N_ACTORS {
-                cmd.push_str(&format!("CREATE CONCEPT ?a{i} {{ TYPE \"Src\" NAME \"actor{i}\" }}\n"));
+                cmd.push_str(&format!(
+                    "CREATE CONCEPT ?a{i} {{ TYPE \"Src\" NAME \"actor{i}\" }}\n"
+                ));
             }
             for i in 0..2 {
-                cmd.push_str(&format!("CREATE CONCEPT ?v{i} {{ TYPE \"Val\" NAME \"value{i}\" }}\n"));
+                cmd.push_str(&format!(
+                    "CREATE CONCEPT ?v{i} {{ TYPE \"Val\" NAME \"value{i}\" }}\n"
+                ));
             }
             for i in 0..N_EVIDENCE {
                 cmd.push_str(&format!(
@@ -139,7 +144,13 @@ impl World {
             }
             cmd.push('}');
             let handles = world.mutate(&cmd, Map::new()).await;
-            let get = |k: String| handles.get(&k).and_then(|v| v.as_str()).unwrap_or_else(|| machinery("setup handle")).to_string();
+            let get = |k: String| {
+                handles
+                    .get(&k)
+                    .and_then(|v| v.as_str())
+                    .unwrap_or_else(|| machinery("setup handle"))
+                    .to_string()
+            };
             world.actors = (0..N_ACTORS).map(|i| get(format!("a{i}"))).collect();
             world.evidence = (0..N_EVIDENCE).map(|i| get(format!("e{i}"))).collect();
             world.values = [get("v0".into()), get("v1".into())];
@@ -153,17 +164,24 @@ impl World {
             "operations": [{"command": command, "parameters": params}]
         }))
         .unwrap_or_else(|e| machinery(&format!("request: {e}")));
-        let parsed = request.operations[0]
-            .parse()
-            .unwrap_or_else(|e| machinery(&format!("harness statement does not parse: {command}\n{e:?}")));
-        self.nexus.execute(parsed, &request, &request.operations[0]).await
+        let parsed = request.operations[0].parse().unwrap_or_else(|e| {
+            machinery(&format!(
+                "harness statement does not parse: {command}\n{e:?}"
+            ))
+        });
+        self.nexus
+            .execute(parsed, &request, &request.operations[0])
+            .await
     }
 
     /// Runs a mutation that must succeed; returns its handle map.
     async fn mutate(&mut self, command: &str, params: Map<String, Json>) -> Map<String, Json> {
         let response = self.exec(command, params).await;
         if response.status != TopLevelStatus::Succeeded {
-            machinery(&format!("harness mutation refused: {command}\n{:?}", response.error));
+            machinery(&format!(
+                "harness mutation refused: {command}\n{:?}",
+                response.error
+            ));
         }
         self.statements += 1;
         response
@@ -197,7 +215,10 @@ impl World {
         if spec.conf != 0 {
             members.push_str(&format!(", confidence: 0.{}", spec.conf));
         }
-        let ev: Vec<String> = (0..N_EVIDENCE).filter(|i| spec.ev >> i & 1 == 1).map(|i| format!(":e{i}")).collect();
+        let ev: Vec<String> = (0..N_EVIDENCE)
+            .filter(|i| spec.ev >> i & 1 == 1)
+            .map(|i| format!(":e{i}"))
+            .collect();
         if !ev.is_empty() {
             members.push_str(&format!(", evidence: [{}]", ev.join(", ")));
         }
@@ -215,7 +236,11 @@ impl World {
             "ASSERT ?n{c} (:s{c}, \"{}\", :v{}) {{ {members} }}{}\n",
             pred(functional),
             spec.rival as u8,
-            if superseding { format!(" SUPERSEDING :o{c}") } else { String::new() }
+            if superseding {
+                format!(" SUPERSEDING :o{c}")
+            } else {
+                String::new()
+            }
         )
     }
 
@@ -230,8 +255,13 @@ impl World {
             // transaction 0: the subjects and their v0 propositions
             let mut cmd = String::from("MUTATE {\n");
             for (c, case) in cases.iter().enumerate() {
-                cmd.push_str(&format!("CREATE CONCEPT ?s{c} {{ TYPE \"Thing\" NAME :batch }}\n"));
-                cmd.push_str(&format!("ENSURE PROPOSITION ?p{c} (?s{c}, \"{}\", :v0)\n", pred(case.functional)));
+                cmd.push_str(&format!(
+                    "CREATE CONCEPT ?s{c} {{ TYPE \"Thing\" NAME :batch }}\n"
+                ));
+                cmd.push_str(&format!(
+                    "ENSURE PROPOSITION ?p{c} (?s{c}, \"{}\", :v0)\n",
+                    pred(case.functional)
+                ));
             }
             cmd.push('}');
             let mut params = self.common_params();
@@ -249,18 +279,31 @@ impl World {
                 let mut params = self.common_params();
                 let mut asserting: Vec<(usize, bool)> = Vec::new();
                 for (c, case) in cases.iter().enumerate() {
-                    let Some(ev) = case.events.get(j) else { continue };
+                    let Some(ev) = case.events.get(j) else {
+                        continue;
+                    };
                     params.insert(format!("s{c}"), json!(recs[c].subject));
                     match ev {
                         Event::Assert { spec, superseding } => {
                             if let Some(old) = superseding {
-                                params.insert(format!("o{c}"), json!(recs[c].assertions[*old as usize]));
+                                params.insert(
+                                    format!("o{c}"),
+                                    json!(recs[c].assertions[*old as usize]),
+                                );
                             }
-                            cmd.push_str(&Self::assert_text(c, case.functional, spec, superseding.is_some()));
+                            cmd.push_str(&Self::assert_text(
+                                c,
+                                case.functional,
+                                spec,
+                                superseding.is_some(),
+                            ));
                             asserting.push((c, spec.rival));
                         }
                         Event::Retract { ordinal } => {
-                            params.insert(format!("o{c}"), json!(recs[c].assertions[*ordinal as usize]));
+                            params.insert(
+                                format!("o{c}"),
+                                json!(recs[c].assertions[*ordinal as usize]),
+                            );
                             cmd.push_str(&format!("RETRACT ASSERTION :o{c}\n"));
                         }
                     }
@@ -279,7 +322,9 @@ impl World {
                         .unwrap_or_else(|| machinery("no proposition handle in receipt"));
                     let slot = &mut recs[c].props[rival as usize];
                     match slot {
-                        Some(old) if old != p => machinery("one semantic tuple resolved to two propositions"),
+                        Some(old) if old != p => {
+                            machinery("one semantic tuple resolved to two propositions")
+                        }
                         _ => *slot = Some(p.to_string()),
                     }
                 }
@@ -289,7 +334,11 @@ impl World {
         (batch, recs)
     }
 
-    fn read(&mut self, command: &str, params: Map<String, Json>) -> Result<(Vec<Json>, Json), String> {
+    fn read(
+        &mut self,
+        command: &str,
+        params: Map<String, Json>,
+    ) -> Result<(Vec<Json>, Json), String> {
         self.queries += 1;
         let t0 = std::time::Instant::now();
         let response = block_on(self.exec(command, params));
@@ -297,7 +346,11 @@ impl World {
         if response.status != TopLevelStatus::Succeeded {
             return Err(format!("{:?}", response.error));
         }
-        let rows = response.first_result().and_then(|r| r.as_array()).cloned().unwrap_or_default();
+        let rows = response
+            .first_result()
+            .and_then(|r| r.as_array())
+            .cloned()
+            .unwrap_or_default();
         let policy = response
             .results
             .first()
@@ -309,7 +362,13 @@ impl World {
     }
 
     /// Projects every proposition of a batch with ONE query; result keyed by proposition id.
-    pub fn project_batch(&mut self, batch: &str, functional: bool, at: usize, policy: &Policy) -> BTreeMap<String, Obs> {
+    pub fn project_batch(
+        &mut self,
+        batch: &str,
+        functional: bool,
+        at: usize,
+        policy: &Policy,
+    ) -> BTreeMap<String, Obs> {
         let command = format!(
             "FIND(?b) WHERE {{ ?s CONCEPT {{type: \"Thing\", name: :batch}} ?p PROPOSITION (?s, \"{}\", ?o) ?b BELIEF (?p) }} FOR TIME \"{}\"{}",
             pred(functional),
@@ -341,7 +400,14 @@ impl World {
     }
 
     /// `?b BELIEF (:s, "pred", :v)` — the fully grounded triple form.
-    pub fn project_triple(&mut self, subject: &str, functional: bool, rival: bool, at: usize, policy: &Policy) -> Result<Vec<Obs>, String> {
+    pub fn project_triple(
+        &mut self,
+        subject: &str,
+        functional: bool,
+        rival: bool,
+        at: usize,
+        policy: &Policy,
+    ) -> Result<Vec<Obs>, String> {
         let command = format!(
             "FIND(?b) WHERE {{ ?b BELIEF (:s, \"{}\", :v) }} FOR TIME \"{}\"{}",
             pred(functional),
@@ -362,7 +428,12 @@ impl World {
     }
 
     /// `?b BELIEF (id: :p)`
-    pub fn project_id(&mut self, proposition: &str, at: usize, policy: &Policy) -> Result<Vec<Obs>, String> {
+    pub fn project_id(
+        &mut self,
+        proposition: &str,
+        at: usize,
+        policy: &Policy,
+    ) -> Result<Vec<Obs>, String> {
         let command = format!(
             "FIND(?b) WHERE {{ ?b BELIEF (id: :p) }} FOR TIME \"{}\"{}",
             GRID[at], policy.clause
@@ -380,7 +451,13 @@ impl World {
     }
 
     /// `?slot BELIEF SLOT (:s, "pred")` → the candidate projections.
-    pub fn project_slot(&mut self, subject: &str, functional: bool, at: usize, policy: &Policy) -> Result<Vec<Obs>, String> {
+    pub fn project_slot(
+        &mut self,
+        subject: &str,
+        functional: bool,
+        at: usize,
+        policy: &Policy,
+    ) -> Result<Vec<Obs>, String> {
         let command = format!(
             "FIND(?slot) WHERE {{ ?slot BELIEF SLOT (:s, \"{}\") }} FOR TIME \"{}\"{}",
             pred(functional),
@@ -392,7 +469,11 @@ impl World {
         let (rows, context_policy) = self.read(&command, params)?;
         let mut out = Vec::new();
         for slot in rows {
-            for raw in slot["candidate_projections"].as_array().cloned().unwrap_or_default() {
+            for raw in slot["candidate_projections"]
+                .as_array()
+                .cloned()
+                .unwrap_or_default()
+            {
                 out.push(Obs {
                     raw,
                     context_policy: context_policy.clone(),
